@@ -19,3 +19,7 @@ pub mod symbuf;
 pub mod gen;
 #[cfg(all(kani, feature = "fam_probe"))]
 pub mod probe;
+#[cfg(all(kani, feature = "fam_c09"))]
+pub mod c09;
+#[cfg(all(kani, feature = "fam_c11x"))]
+pub mod c11x;
